@@ -102,6 +102,11 @@ enum Item {
 #[derive(Clone, Debug)]
 enum Op {
     Push(Item),
+    /// The same, but the record is one *parsed out of another message* in
+    /// which its names are compressed (owner and rdata names come as bare
+    /// pointers to names that end in pointers themselves): what a server does
+    /// when it copies records from one message into another.
+    PushParsed(Item),
     NextSection,
     /// Convert straight to the builder of another section: forwards (skipped
     /// sections stay empty) or backwards (that section's items stay, all
@@ -274,6 +279,36 @@ impl<T: Composer> Stage<T> {
                     )),
                 }
             }
+            _ => unreachable!(),
+        }
+    }
+}
+
+impl<T: Composer> Stage<T> {
+    /// Push `item` (a record) by way of a compressed source message.
+    fn push_parsed(&mut self, pool: &[String], item: &Item) -> Result<(), PushError> {
+        use domain::base::{ParsedName, TreeCompressor as TC};
+        use domain::rdata::AllRecordData;
+        let Item::Record(o, _, _) = item else { unreachable!() };
+        // Source: a record owned by the item's owner (so that the name is on
+        // record), then the item twice - the second copy's names are bare
+        // pointers to the first copy's, which end in pointers themselves.
+        let mut src: Stage<TC<Vec<u8>>> = Stage::An(MessageBuilder::from_target(TC::new(Vec::new())).unwrap().answer());
+        let lead = Item::Record(*o, 1, RData::A(7));
+        src.push(pool, &lead).expect("source");
+        src.push(pool, item).expect("source");
+        src.push(pool, item).expect("source");
+        let bytes = match src {
+            Stage::An(b) => b.finish().into_target(),
+            _ => unreachable!(),
+        };
+        let msg = domain::base::Message::from_octets(bytes.as_slice()).expect("source parses");
+        let rec = msg.answer().expect("answer").nth(2).expect("third record").expect("parses");
+        let rec = rec.into_record::<AllRecordData<_, ParsedName<_>>>().expect("record data").expect("known type");
+        match self {
+            Stage::An(b) => b.push(rec),
+            Stage::Au(b) => b.push(rec),
+            Stage::Ad(b) => b.push(rec),
             _ => unreachable!(),
         }
     }
@@ -468,14 +503,18 @@ fn execute<T: Composer>(pool: &[String], ops: &[Op], ctl: &SinkCtl, stream: bool
                     Err(_) => return Some(lens),
                 }
             }
-            Op::Push(item) => {
+            Op::Push(item) | Op::PushParsed(item) => {
                 let sec = st.section();
-                let ok_here = matches!((sec, item), (0, Item::Question(..)) | (1..=3, Item::Record(..)));
+                let parsed = matches!(op, Op::PushParsed(_));
+                let ok_here = matches!((sec, item), (0, Item::Question(..)) | (1..=3, Item::Record(..))) && !(parsed && sec == 0);
                 if !ok_here {
                     lens.push(ctl.bytes.borrow().len());
                     continue;
                 }
-                match st.push(pool, item) {
+                if parsed {
+                    sim::stat("probe.record_parsed_from_a_compressed_message_pushed");
+                }
+                match if parsed { st.push_parsed(pool, item) } else { st.push(pool, item) } {
                     Ok(()) => model.items.push((sec, item.clone())),
                     Err(_) => failed = true,
                 }
@@ -713,9 +752,27 @@ fn gen_ops(pool: &[String], size_class: u64) -> Vec<Op> {
                     5 => RData::Ns(pick_name()),
                     _ => RData::Soa(pick_name(), pick_name(), sim::draw("ops.serial", 1000) as u32),
                 };
-                ops.push(Op::Push(Item::Record(owner, ttl, rd)));
+                // (Huge TXT data does not go through a second message.)
+                let small = !matches!(rd, RData::Txt(l, _) if l > 2000);
+                if small && sim::chance("ops.via_parsed", 1, 6) {
+                    ops.push(Op::PushParsed(Item::Record(owner, ttl, rd)));
+                } else {
+                    ops.push(Op::Push(Item::Record(owner, ttl, rd)));
+                }
             }
         }
+    }
+    if size_class == 5 {
+        // An unbounded target and an OPT record whose options add up to more
+        // than an RDLENGTH can say: the push has to be refused (and rolled
+        // back), whatever room there is.
+        while section < 3 {
+            ops.push(Op::NextSection);
+            section += 1;
+        }
+        let (a, b) = *sim::pick("ops.huge_opt", &[(40_000usize, 30_000usize), (65_000, 600), (65_531, 0), (65_532, 0), (30_000, 30_000)]);
+        ops.push(Op::Opt(1232, vec![(65_001, a), (65_002, b)], vec![]));
+        ops.push(Op::Push(Item::Record(pick_name(), 60, RData::A(5))));
     }
     if size_class == 4 {
         if section == 0 {
@@ -736,7 +793,7 @@ fn gen_ops(pool: &[String], size_class: u64) -> Vec<Op> {
         let used: Vec<usize> = ops
             .iter()
             .flat_map(|o| match o {
-                Op::Push(Item::Record(o, _, rd)) => {
+                Op::Push(Item::Record(o, _, rd)) | Op::PushParsed(Item::Record(o, _, rd)) => {
                     let mut v = vec![*o];
                     match rd {
                         RData::Mx(_, i) | RData::Cname(i) | RData::Ns(i) => v.push(*i),
@@ -805,7 +862,12 @@ fn run(tier: Tier) {
     let stream = sim::chance("cfg.stream", 1, 2);
     // 0 small, 1 around 512, 2 a few KiB, 3 around the 0x3FFF pointer limit,
     // 4 around the 0xFFFF size limit.
-    let size_class = *sim::pick("cfg.size_class", &[0u64, 1, 2, 0, 1, 2, 3, 3, 4]);
+    // 5: beyond 64 KiB on an unbounded target (plain targets only).
+    let size_class = *sim::pick("cfg.size_class", &[0u64, 1, 2, 0, 1, 2, 3, 3, 4, 5]);
+    let size_class = if size_class == 5 && stream { 2 } else { size_class };
+    if size_class == 5 {
+        sim::stat("probe.unbounded_target_beyond_64k");
+    }
     let ops = gen_ops(&pool, size_class);
     ev!("compressor={:?} stream={} size_class={} ops={:?}", comp, stream, size_class, ops);
     let label = format!("{:?}{}", comp, if stream { "+stream" } else { "" });
@@ -829,7 +891,7 @@ fn run(tier: Tier) {
         };
     }
     // Fault-free run (capacity 65535 + prefix: the 0xFFFF boundary).
-    let hard = 65_535 + if stream { 2 } else { 0 };
+    let hard = if size_class == 5 { 1 << 22 } else { 65_535 + if stream { 2 } else { 0 } };
     let lens = match exec!(hard, None) {
         Some(l) => l,
         None => return,
